@@ -299,3 +299,40 @@ Example real_fx_ignores_source_shape :
              [0; 0;0;0; 1; 0;0;0; 2; 0;0;0; 3; 0;0;0; 4; 0;0;0; 5; 0;0;0; 6] in
   (wrunning s, wc s, wd s) = (2, 2, DAcq (Some BRet)).
 Proof. vm_compute. reflexivity. Qed.
+
+(* (i) Pool.Get that counts the resource BEFORE calling create() and never uncounts it when
+   create() panics (the code before F34 / e2cd8c7). *)
+Definition count_first_pget (s : pstate) (t : nat) (th : pthread) (sig : nat) (cp : bool) : pstate :=
+  let s' := pget s t th sig cp in
+  if cp && negb (Nat.eqb (length (pres (nth t (pthreads s') th))) (length (pres th)))
+        && (Z.eqb (last (pres (nth t (pthreads s') th)) 0%Z) (-2)%Z)
+  then mkPS (plimit s') (pmaxage s') (S (pcreated s')) (pidle s') (pclock s') (pnext s') (psig s')
+            (pdestroyed s') (pthreads s') (plocked s')
+  else s'.
+
+Definition count_first_pstep (s : pstate) (t : nat) : option pstate :=
+  match nth_error (pthreads s) t with
+  | Some th =>
+    match pcur th, ppcof th with
+    | Some PGetX, PEnter => if plocked s then None else Some (count_first_pget s t th (psig s) true)
+    | _, _ => pstep s t
+    end
+  | None => None
+  end.
+
+(* limit 1: the create() of the first Get panics; nothing is idle, nothing is held, yet the
+   slot is counted and the next Get waits for ever *)
+Theorem count_first_create_panic_leak_refuted :
+  exists n scripts sched,
+    let s := run count_first_pstep (pinit n 0 scripts) sched in
+    pcreated s <> length (pidle s) + pheldcount s /\ pidle s = [] /\ pheldcount s = 0 /\
+    map ppcof (pthreads s) = [PWaiting] /\ map pres (pthreads s) = [[(-2)%Z]].
+Proof.
+  exists 1, [[PGetX; PGet]], [0;0; 0;0].
+  vm_compute. repeat split; auto. discriminate.
+Qed.
+
+Example real_pool_create_panic_keeps_slot :
+  let s := pexec 1 0 [[PGetX; PGet]] [0;0; 0;0;0] in
+  (pcreated s, map pres (pthreads s), map pheld (pthreads s)) = (1, [[-2; 0]]%Z, [[0]]).
+Proof. vm_compute. reflexivity. Qed.
